@@ -2,13 +2,14 @@
 SPECIFICATION Spec
 CONSTANTS
   Sorts <- SortsQuick
-  Sizes = {0, 1, 2, 3}
+  Sizes = {0, 1, 2}
   Skips = {0, 1, 2}
-  AfterSizes = {1, 2}
+  AfterSizes = {2}
   ReqModes = {"page", "after", "before"}
   MaxN = 4
+  MaxN2 = 3
   ScoresSorted = {0, 1, 2}
-  ScoresOther = {0, 1}
+  ScoresOther = {1}
   SingleVals <- QSingle
   MultiVals <- QMulti
   FirstMultiVals <- QNone
